@@ -144,7 +144,15 @@ def two_loop(facts, q, spec, res):
         res.violation("C20.2.pair-law", f, q, "data-dependent", e.node["l"][1],
                       "the per-pair contribution is not the pairwise law for every input: %s - pairs satisfying the condition get a different (or no) contribution" % e.text)
         return
-    # any accumulator that was not flushed
+    # accumulators seeded from the target's results and written back after the source loop: when the routine also updates the
+    # source results (mutual) through another parameter, the two arrays may be the same (a leaf interacting with its own periodic
+    # image): the source-side update of the target's own slot is then overwritten by the stale accumulator
+    if blk.rmw and spec["mutual"] and spec["srhs"] is not None and spec["srhs"] != spec["trhs"]:
+        loc, node = blk.rmw[0]
+        res.violation("C20.2.pair-law", f, q, "stale-accumulator:%s" % ".".join(str(x) for x in loc), node["l"][1],
+                      "the target's results are read before the source loop and written back after it (`%s`), while the source loop adds to '%s': the routine is called with the same "
+                      "array for both sides (a leaf and its own periodic image), the update made through the source side is then lost - 'equivalent to two one-sided calls' no longer holds"
+                      % (facts.ntext(node)[:60], pn[spec["srhs"]]))
     sd, td = pn[spec["sdata"]], pn[spec["tdata"]]
 
     def ld(p, k, i):
